@@ -2,9 +2,10 @@
 driver.setup_env() before this module imports numpy and typhon).
 
 A group is a multiset of (truth, offset %) pairs; its cases are both functions
-x all distinct orders x SCALES x SHAPES. The first order at scale 1 as 1-D
-float vectors is the reference of the group (judged against the offset if it
-is uniform); every other case is judged against the case that differs from it
+x (all distinct orders x SCALES x BASIC_SHAPES, and the sorted order x
+SCALES + WIDE_SCALES x SHAPES). The sorted order at scale 1 as 1-D float64
+vectors is the reference of the group (judged against the offset if it is
+uniform); every other case is judged against the case that differs from it
 in one respect.
 """
 import itertools
@@ -12,17 +13,31 @@ import itertools
 import numpy as np
 from typhon.retrieval import scores
 
-TRUTHS = (-2.0, -1.0, 0.5, 1.0, 2.0, 1e6)
+TRUTHS = (-2.0, -1.0, 1e-9, 0.5, 1.0, 2.0, 1e6)
 OFFSETS = (-10, -1, 0, 1, 10, 50)
 PAIRS = tuple(itertools.product(TRUTHS, OFFSETS))
 SCALES = (1, -3, 1e-3, 7)
-# both arguments (n,), (n,1), (1,n), (n/2,2); one of them (n,) and the other
-# (n,1); both (n,) with one of them as int64 (counts; only where its values
-# are integral): the same n values element by element in every layout
-SHAPES = ("vector", "column", "row", "matrix", "pred-column", "truth-column",
-          "pred-int64", "truth-int64")
+# magnitudes of trace-gas mixing ratios / SI radiances up to the ends of the
+# float64 range; the powers of two keep whole numbers and float32 values exact
+WIDE_SCALES = (1e-8, 1e-9, 1e-12, 1e-30, 1e-300, 1e30, 1e300,
+               2.0 ** -40, 2.0 ** 40)
+# (shape of the prediction, shape of the truth): the same n values element by
+# element in every layout
+LAYOUTS = {"vector": ((-1,), (-1,)), "column": ((-1, 1), (-1, 1)),
+           "row": ((1, -1), (1, -1)), "matrix": ((-1, 2), (-1, 2)),
+           "pred-column": ((-1, 1), (-1,)), "truth-column": ((-1,), (-1, 1))}
+DTYPES = ("int64", "int32", "int16", "float32")
+# name -> (layout, argument(s) given in another dtype than float64, dtype);
+# only where every value of that argument is exactly representable there
+SHAPES = {name: (name, None, None) for name in LAYOUTS}
+for _role, _dtype in itertools.product(("pred", "truth", "both"), DTYPES):
+    SHAPES["%s-%s" % (_role, _dtype)] = ("vector", _role, _dtype)
+    SHAPES["%s-%s-column" % (_role, _dtype)] = ("column", _role, _dtype)
+BASIC_SHAPES = tuple(LAYOUTS) + ("pred-int64", "truth-int64")
 FUNCS = ("mape", "bias")
 EPS = 2.0 ** -52
+EPS32 = 2.0 ** -23
+TINY = float(np.finfo(float).tiny)
 
 
 def shards(tier):
@@ -55,31 +70,48 @@ def arrays(order, scale):
     return pred, truth
 
 
-def applicable_shapes(order, scale):
+def normal(order, scale):
+    """Are all scaled values normal float64 numbers (finite, with full
+    relative precision: the prediction still is p percent off)?"""
     pred, truth = arrays(order, scale)
-    skip = {"matrix": len(order) % 2 == 1,
-            "pred-int64": np.any(pred != np.rint(pred)),
-            "truth-int64": np.any(truth != np.rint(truth))}
-    return [shape for shape in SHAPES if not skip.get(shape)]
+    return all(np.all(np.isfinite(a) & (np.abs(a) >= TINY))
+               for a in (pred, truth))
+
+
+def exact_in(values, dtype):
+    with np.errstate(all="ignore"):
+        return np.array_equal(values.astype(dtype).astype(float), values)
+
+
+def applicable_shapes(order, scale, names):
+    pred, truth = arrays(order, scale)
+    exact = {}
+    out = []
+    for name in names:
+        layout, role, dtype = SHAPES[name]
+        if layout == "matrix" and len(order) % 2 == 1:
+            continue
+        if role is not None:
+            if dtype not in exact:
+                exact[dtype] = dict(pred=exact_in(pred, dtype),
+                                    truth=exact_in(truth, dtype))
+                exact[dtype]["both"] = all(exact[dtype].values())
+            if not exact[dtype][role]:
+                continue
+        out.append(name)
+    return out
 
 
 def evaluate(func, order, scale, shape):
     """-> typhon's value, or the exception it raised."""
     pred, truth = arrays(order, scale)
-    if shape == "pred-int64":
-        pred = pred.astype(np.int64)
-    elif shape == "truth-int64":
-        truth = truth.astype(np.int64)
-    elif shape == "column":
-        truth, pred = truth.reshape(-1, 1), pred.reshape(-1, 1)
-    elif shape == "row":
-        truth, pred = truth.reshape(1, -1), pred.reshape(1, -1)
-    elif shape == "matrix":
-        truth, pred = truth.reshape(-1, 2), pred.reshape(-1, 2)
-    elif shape == "pred-column":
-        pred = pred.reshape(-1, 1)
-    elif shape == "truth-column":
-        truth = truth.reshape(-1, 1)
+    layout, role, dtype = SHAPES[shape]
+    if role in ("pred", "both"):
+        pred = pred.astype(dtype)
+    if role in ("truth", "both"):
+        truth = truth.astype(dtype)
+    pred = pred.reshape(LAYOUTS[layout][0])
+    truth = truth.reshape(LAYOUTS[layout][1])
     try:
         return getattr(scores, func)(pred, truth)
     except Exception as exc:
@@ -105,6 +137,8 @@ def check_case(func, order, scale, shape, cache):
                 repr(got)[:200], "")
     if np.ndim(got) != 0:
         return (func + "/result-not-scalar", [], list(np.shape(got)), "")
+    if not np.isfinite(got):
+        return (func + "/result-not-finite", "a finite number", repr(got), "")
     if shape != "vector":
         what, ref = "differs-for-layout-" + shape, \
             value(func, order, scale, "vector")
@@ -118,9 +152,15 @@ def check_case(func, order, scale, shape, cache):
     else:
         return None
     # a reference that failed itself is reported by its own case
-    if isinstance(ref, Exception) or np.ndim(ref) != 0:
+    if isinstance(ref, Exception) or np.ndim(ref) != 0 \
+            or not np.isfinite(ref):
         return None
     bound = tol * (1 + abs(float(ref)) / 100)
+    if SHAPES[shape][1:] == ("both", "float32"):
+        # typhon may compute in float32: the differences are exact there
+        # (ratios in [0.9, 1.5]); roundings of 100 * d, of the ratio, of the
+        # sum and of the mean, each relative to a term
+        bound += EPS32 * (len(order) + 4) * max(abs(p) for p in offsets)
     if not abs(float(got) - float(ref)) <= bound:
         return ("%s/%s" % (func, what), float(ref), float(got),
                 "tolerance %.3g" % bound)
@@ -132,10 +172,16 @@ def run_shard(res, shard, report):
     case = None
     for group in groups(kind, n, first, p):
         cache = {}
+        canon = tuple(sorted(group))
         for order in sorted(set(itertools.permutations(group))):
-            for scale in SCALES:
+            scales, names = (SCALES + WIDE_SCALES, SHAPES) if order == canon \
+                else (SCALES, BASIC_SHAPES)
+            for scale in scales:
+                if not normal(order, scale):
+                    res.count("scalings_outside_normal_range")
+                    continue
                 for func, shape in itertools.product(
-                        FUNCS, applicable_shapes(order, scale)):
+                        FUNCS, applicable_shapes(order, scale, names)):
                     res.case(nontrivial=any(q != 0 for _, q in order))
                     case = dict(part="percent", func=func, pairs=order,
                                 scale=scale, shape=shape)
